@@ -137,3 +137,12 @@ Theorem c04_c_rx_ind_shape : forall d tn fn rssi toa bits, Forall (fun b => 0 <=
   /\ (length bits = 148%nat \/ length bits = 444%nat) /\ Forall (fun s => -127 <= s <= 127) bits.
 Proof. exact c_data_rx_ind_shape. Qed.
 Print Assumptions c04_c_rx_ind_shape.
+
+(* the socket layer in between (data_if.py): the receive size of DATAInterface.recv_raw_data - probed through a socket on every run -
+   holds the longest valid L1 -> TRX datagram (6 header octets + 444 bits + 2 legacy padding octets = 452), so what reaches the parser is
+   the datagram as it was sent *)
+From OBB Require Import Gen.FakeTrxConst Proofs.TrxdRecvSize.
+Theorem c04_datagram_fits_receive_size : forall m l b, gen_tx l m = Ok b ->
+  Z.of_nat (length b) <= 452 /\ 452 <= data_recv_size /\ firstn (Z.to_nat data_recv_size) b = b.
+Proof. exact (fun m l b H => conj (proj1 (gen_tx_fits m l b H)) (conj (proj2 (gen_tx_fits m l b H)) (firstn_recv_id m l b H))). Qed.
+Print Assumptions c04_datagram_fits_receive_size.
